@@ -10,6 +10,11 @@ correspondence : (T) the tables of smoothing.py (SYMMETRIC_RELAXATION, KRYLOV_RE
                  1e-9) on hand-built exact hierarchies and on hierarchies of the real constructors; the model
                  also decides exactly M = M^H, "post-smoother = adjoint of the pre-smoother on every level" and
                  "M equals the textbook operator Mop", the hypotheses / conclusions of the theorems.
+                 (B') extension E36: the extended cycle model `PyamgV.C05Y.denseMY` (chebyshev / richardson with the coefficients
+                 of the installed closures, block_jacobi / block_gauss_seidel with block size 2 and exactly inverted diagonal
+                 blocks, jacobi_ne, gauss_seidel_ne, gauss_seidel_nr; mixed per-level lists) vs aspreconditioner on hand-built
+                 exact hierarchies, with the model's exact Booleans "Q_post = Q_pre^H", "Q_post A = (Q_pre A)^H",
+                 "A Q_post = (A Q_pre)^H", "M = M^H", "M positive definite".
 search         : dense M of aspreconditioner('V'|'W') on small Hermitian problems (real and complex; Ruge-Stuben,
                  smoothed aggregation, root-node, pairwise, adaptive SA, BSR) for enumerated and random smoother pairs:
                  flag True => ||M - M^H||_F <= 1e-10 ||M||_F and lambda_min(M) > 0; the CG warning fires iff the
@@ -36,23 +41,48 @@ META = {
             'arguments; non-trivial = at least one smoothing level; distinct = distinct (pre, post, levels) rows. '
             'cycles: (hierarchy, pre, post, V|W) with n >= 2 unknowns and 2-6 levels (hand-built exact integer/dyadic hierarchies, '
             'real and complex; Ruge-Stuben, SA, root-node, pairwise, adaptive SA, BSR hierarchies of SPD matrices); a fixed core of '
-            '65 (constructor, matrix, pair) cases runs whatever the seed; distinct by content hash',
+            '65 (constructor, matrix, pair) cases runs whatever the seed; distinct by content hash. '
+            'extended cycles (E36): hand-built exact hierarchies (2-4 levels, real and complex) with per-level lists over chebyshev, '
+            'richardson, block_jacobi / block_gauss_seidel (blocksize 2 where it divides the level size), jacobi_ne, gauss_seidel_ne, '
+            'gauss_seidel_nr and smoothers of the first model, partner or near-miss post-smoothers; non-trivial = n >= 2',
     'search_only': [
-        'smoothers outside the cycle model (Chebyshev, Richardson, Schwarz, strength-based Schwarz, block size > 1, '
-        'withrho=True rescaling, BSR matrices, normal-equation smoothers): M = M^H and definiteness are decided by the dense-M '
-        'search on the real code only; their flag logic is still model-compared row by row',
+        'smoothers outside both cycle models (Schwarz, strength-based Schwarz, withrho=True rescaling, BSR level matrices, explicit '
+        'Dinv arguments, cf_/fc_block_jacobi): M = M^H and definiteness are decided by the dense-M search on the real code only; '
+        'their flag logic is still model-compared row by row (Chebyshev, Richardson, block size > 1 and the normal-equation '
+        'smoothers are inside the extended cycle model of E36)',
         'complex Hermitian matrices: the adjointness / definiteness theorems of the first rounds are stated over ordered fields; the '
         'complex executed model is covered by the order-free refinement chain and the Hermitian adjointness theory over fields with '
         'involution (flag_denseM_hermitian_checked_crat); definiteness for complex data is decided by the search on the real code',
-        'positive definiteness: precond_psd / precond_pd reduce it to (strict) energy reduction by the cycle; that reduction is not '
-        'derived from the smoother parameters but observed (lambda_min(M) > 0 on the real code)',
+        'positive definiteness: for Gauss-Seidel / SOR (0 < omega < 2, any sweep mode) and damped Jacobi under omega A < 2 D it is '
+        'proved from the parameters (flag_cycle_spd: strict finest smoother, non-expansive rest, Galerkin hierarchy, energy-exact '
+        'coarsest solve; real symmetric case) and the exact model matrix is required to be positive definite on such instances; for '
+        'the other families (polynomial, block, cf/fc Jacobi, complex data) precond_psd / precond_pd still reduce it to an energy '
+        'reduction that is observed (lambda_min(M) > 0 on the real code)',
         'the CG warning: the consumer `accel == "cg" and not symmetric_smoothing` is a one-line model (cgWarns); the real '
         'solve(accel="cg") is observed to warn iff the flag is False (V and W cycles)',
     ],
     'partial': [
         'levelOk_partner / partner_adjoint / flag_cycle_symmetric cover hierarchies whose installed smoothers are gauss_seidel, sor, '
-        'jacobi, cf_/fc_jacobi (no spectral rescaling), block_gauss_seidel / block_jacobi with block size 1, or None; Chebyshev, '
-        'Richardson, Schwarz, larger blocks and spectral rescaling have no adjointness theorem',
+        'jacobi, cf_/fc_jacobi (no spectral rescaling), block_gauss_seidel / block_jacobi with block size 1, or None; E36 adds '
+        'levelOk_partnerY / partnerY_adjoint / flag_cycle_symmetricY for chebyshev, richardson (poly_pair), block_jacobi / '
+        'block_gauss_seidel with any block size (blockJacobi_pair, blockSweep_pair, blockSweep_symmetric) at the operator level: the '
+        'step operators of a family are level data with the hypothesis that they are symmetric; the executed array smoothers are '
+        'proved to be these operators for the polynomial family (executed_poly_smoother) and for block Gauss-Seidel / block Jacobi on '
+        'the BSR copy (executed_bgs_smoother, executed_bjac_smoother, executed_bgs_pair; hypotheses Dinv_i B_ii = I, symmetric inverse '
+        'blocks, bsrLin B symmetric: not discharged by a proved Boolean checker, and csr -> bsr conversion is not proved to preserve '
+        'the operator); the executed recursion denseMY over the extended smoothers has no refinement theorem -- the exact Booleans the '
+        'driver computes on every instance (adjoint pairs, M = M^H) are the cross-check. Schwarz and spectral rescaling have no '
+        'adjointness theorem',
+        'normal-equation smoothers: no symmetric-M theorem exists because the statement is false (finding '
+        'ne-nr-smoothers-flagged-symmetric; kernel-evaluated 2x2 counterexamples jacobi_ne_counterexample, '
+        'gauss_seidel_ne_counterexample, gauss_seidel_nr_counterexample); what is proved instead is which adjoint they have: '
+        'ne_sweep_err_adj / jacobi_ne_err_selfadj (error propagators adjoint for the Euclidean form), nr_sweep_res_adj (residual '
+        'propagators), and the model Booleans erradj / resadj are required to hold on every flagged NE / NR instance',
+        'flag_cycle_spd (definiteness from parameters) is an operator-level theorem over the abstract recursion cyc with the '
+        'hypotheses WFL, WFFlag, WFH\' (Galerkin coarse operators, R adjoint to P in the energy sense, energy-exact coarsest solve); it '
+        'is not transported to the executed matrix denseM by a refinement theorem: the driver decides positive definiteness of the '
+        'exact model matrix per instance (symmetric elimination) instead; damped Jacobi needs the matrix bound omega A < 2 D '
+        '(JacBound), which is a hypothesis, not derived from diagonal dominance',
         'real case: the executable array model of the cycle (denseM, compared with the real M) is proved to be the matrix of the '
         'textbook operator MopL/Mop over smOp (denseM_is_textbook_operator, denseM_is_Mop) and to be symmetric when the flag is True '
         '(flag_denseM_symmetric; hypotheses: matching shapes, one stored non-zero diagonal entry per row, symmetric level matrices, '
@@ -921,6 +951,204 @@ def part_cycles(ctx, n_hand, n_ctor):
 
 
 # ------------------------------------------------------------------------------------------------
+# part B': the extended cycle model (extension E36): polynomial family, block size 2, normal-equation smoothers
+# ------------------------------------------------------------------------------------------------
+
+Y_FAMILIES = ('chebyshev', 'richardson', 'block_jacobi', 'block_gauss_seidel', 'jacobi_ne', 'gauss_seidel_ne', 'gauss_seidel_nr')
+Y_SWEEP = ('block_gauss_seidel', 'gauss_seidel_ne', 'gauss_seidel_nr')
+
+
+def y_spec(rng, nm):
+    """a specification of one of the families of the extended cycle model (Model/ExtC05YCycle.lean)"""
+    kw = {}
+    if rng.random() < 0.35:
+        kw['iterations'] = int(rng.integers(1, 3))
+    if nm == 'chebyshev':
+        if rng.random() < 0.6:
+            kw['degree'] = int(rng.integers(1, 4))
+        if rng.random() < 0.3:
+            kw['lower_bound'], kw['upper_bound'] = 0.125, 1.0625
+    elif nm == 'richardson':
+        if rng.random() < 0.6:
+            kw['omega'] = float(rng.choice([0.5, 0.75, 1.0]))
+    elif nm == 'block_jacobi':
+        kw.update(blocksize=2, withrho=False, omega=float(rng.choice([0.25, 0.5, 0.75])))
+    elif nm == 'block_gauss_seidel':
+        kw['blocksize'] = 2
+    elif nm == 'jacobi_ne':
+        kw.update(withrho=False, omega=float(rng.choice([0.25, 0.5])))
+    elif nm in ('gauss_seidel_ne', 'gauss_seidel_nr') and rng.random() < 0.6:
+        kw['omega'] = float(rng.choice([0.5, 1.0, 1.5]))
+    if nm in Y_SWEEP and rng.random() < 0.9:
+        kw['sweep'] = str(rng.choice(['forward', 'backward', 'symmetric']))
+    return (nm, kw) if kw else nm
+
+
+def y_partner(rng, spec, good):
+    nm, kw = unpack(spec)
+    if good or nm is None:
+        return flip(spec)
+    kw = dict(kw)
+    r = rng.random()
+    if nm == 'chebyshev' and r < 0.5:
+        kw['degree'] = int(kw.get('degree', 3)) % 3 + 1
+    elif 'omega' in kw and r < 0.5:
+        kw['omega'] = float(kw['omega']) / 2
+    elif nm in Y_SWEEP and r < 0.8:
+        pass                                  # the same sweep on both sides
+    else:
+        kw['iterations'] = int(kw.get('iterations', 1)) + 1
+    return (nm, kw) if kw else nm
+
+
+def y_lists(rng, sizes):
+    """per-level lists over the families of the extended model; block size 2 only where it divides the level size"""
+    nl = len(sizes)
+    same = rng.random() < 0.4
+    fam0 = Y_FAMILIES[int(rng.integers(len(Y_FAMILIES)))]
+    allgood = rng.random() < 0.7
+    P, Q = [], []
+    for i in range(nl):
+        nm = fam0 if same else Y_FAMILIES[int(rng.integers(len(Y_FAMILIES)))]
+        if nm in ('block_jacobi', 'block_gauss_seidel') and sizes[i] % 2:
+            nm = 'chebyshev' if nm == 'block_jacobi' else 'gauss_seidel'
+        if rng.random() < 0.15:
+            spec = modelled_spec(rng, allow_cf=False)
+        elif nm == 'gauss_seidel':
+            spec = ('gauss_seidel', {'sweep': str(rng.choice(['forward', 'symmetric']))})
+        else:
+            spec = y_spec(rng, nm)
+        P.append(spec)
+        Q.append(y_partner(rng, spec, allgood or rng.random() < 0.6))
+    if same and all(json.dumps(json_specs([x])) == json.dumps(json_specs([P[0]])) for x in P) \
+            and all(json.dumps(json_specs([x])) == json.dumps(json_specs([Q[0]])) for x in Q) and rng.random() < 0.5:
+        P, Q = P[:1], Q[:1]
+    return P, Q
+
+
+def y_oracle(ml, pre, post, i):
+    """the coefficient table of level i: what setup_chebyshev / setup_richardson computed (read from the installed closures)"""
+    ents = []
+    lvl = ml.levels[i]
+    for (nm, kw), fn in zip(level_pair(pre, post, i), (lvl.presmoother, lvl.postsmoother)):
+        if nm not in ('chebyshev', 'richardson'):
+            continue
+        nl_ = inspect.getclosurevars(fn).nonlocals
+        if nm == 'chebyshev':
+            coef = [float(c) for c in np.asarray(nl_['coefficients']).ravel()]
+            args = [enc_val(kw[k]) if k in kw else 'N' for k in ('lower_bound', 'upper_bound', 'degree')]
+        else:
+            coef = [float(nl_['omega'])]
+            args = [enc_val(kw.get('omega', 1))]
+        ents.append(f'{nm}:{";".join(args)}:{enc_rats(coef)}')
+    return '@'.join(ents) if ents else '-'
+
+
+def cyc_line_y(ml, pre, post, cyc, cplx):
+    toks = ['ext_c05y_cyc', 'c' if cplx else 'r', cyc, enc_specs(pre), enc_specs(post)]
+    for i, lvl in enumerate(ml.levels[:-1]):
+        split = getattr(lvl, 'splitting', None)
+        C = np.nonzero(split)[0] if split is not None and np.asarray(split).dtype == bool else []
+        toks += [enc_csr(lvl.A, cplx), enc_csr(lvl.P, cplx, with_n=False), str(lvl.R.shape[0]),
+                 enc_csr(lvl.R, cplx, with_n=False), enc_ints(C), y_oracle(ml, pre, post, i)]
+    toks.append(enc_csr(ml.levels[-1].A, cplx))
+    return ' '.join(toks)
+
+
+def y_is_ne(specs):
+    return any(unpack(x)[0] in NE_NAMES for x in as_list(specs))
+
+
+def part_cycles_y(ctx, n_hand):
+    """the extended cycle model `PyamgV.C05Y.denseMY` against aspreconditioner on hand-built exact hierarchies; the model's exact
+    Booleans are the hypotheses / conclusions of the E36 theorems: adjoint pairs (energy sense) for the polynomial and block
+    families, Euclidean adjointness of error / residual propagators for the normal-equation families, positive definiteness when
+    the finest pre- or post-smoother has strict parameters (flag_cycle_spd)"""
+    rng = ctx.np_rng
+    lines, meta = [], []
+    for t in range(n_hand):
+        cplx = (t % 4 == 3)
+        nlev = int(rng.choice([2, 3, 3, 4]))
+        mats, splits = hand_levels(rng, cplx, nlev, n0=int(rng.choice([4, 6, 6, 8, 8, 9])))
+        if len(mats) < 3:
+            continue
+        ml = build_ml(mats, splits, coarse_solver='pinv')
+        sizes = [l.A.shape[0] for l in ml.levels[:-1]]
+        P, Q = y_lists(rng, sizes)
+        reseed(ctx)
+        r = real_flag(ml, P, Q)
+        case = {'kind': 'hand', 'mats': [jmat(M) for M in mats], 'splits': [s.tolist() for s in splits], 'coarse_solver': 'pinv',
+                'complex': cplx, 'pre': json_specs(P), 'post': json_specs(Q)}
+        if r == 'reject' or r.startswith('raised'):
+            ctx.feat('cycleY:' + r)
+            continue
+        try:
+            Ms = {cyc: dense_M(ml, cyc) for cyc in 'VW'}
+        except Exception as ex:
+            ctx.feat(f'cycleY:cycle raised {type(ex).__name__}')
+            continue
+        i0 = len(lines)
+        lines.append(f'c05_flag {enc_specs(P)} {enc_specs(Q)} {len(ml.levels) - 1}')
+        for cyc in 'VW':
+            lines.append(cyc_line_y(ml, P, Q, cyc, cplx))
+        meta.append((i0, ml, P, Q, cplx, case, Ms, r))
+    outs = lean(ctx, lines) if lines else []
+    for i0, ml, P, Q, cplx, case, Ms, r in meta:
+        mflag = outs[i0]
+        if mflag != r:
+            ctx.corr('change_smoothers flag (extended cycle part)', case, mflag, r)
+        ne = y_is_ne(P) or y_is_ne(Q)
+        for k, cyc in enumerate('VW'):
+            o = outs[i0 + 1 + k]
+            M = Ms[cyc]
+            n = M.shape[0]
+            cj = {**case, 'cycle': cyc}
+            ctx.case(key=_key('cycY', lines[i0 + 1 + k]), nontrivial=n >= 2,
+                     sample={'hierarchy': [l.A.shape[0] for l in ml.levels], 'pre': case['pre'], 'post': case['post'], 'cycle': cyc,
+                             'model': o[-60:], 'flag': r} if (i0 + k) % 97 == 0 else None)
+            for nm in sorted({str(unpack(x)[0]) for x in as_list(P) + as_list(Q)}):
+                ctx.feat('cycleY:smoother ' + nm)
+            if o in ('unmodelled', 'singular', 'bad-op'):
+                ctx.feat('cycleY:' + o)
+                if o != 'singular':
+                    ctx.corr('ext_c05y_cyc', cj, o, 'a dense matrix')
+                continue
+            ms, herm, adj, eadj, radj, hh, mne, strict, pd = o.split(' ')
+            Mm = dec_mat(ms, cplx)
+            err = float(np.linalg.norm(Mm - M) / max(np.linalg.norm(Mm), 1e-300)) if Mm.shape == M.shape else float('inf')
+            if err <= TOL_MODEL:
+                ctx.rel_err(err)
+                STATS['model'] = max(STATS['model'], err)
+            else:
+                ctx.corr(f'aspreconditioner({cyc!r}) dense matrix (extended model)', cj, f'rel.diff {err:.3e}; model row0 {Mm[0][:4]}',
+                         f'impl row0 {M[0][:4]}')
+            ctx.feat(f'cycleY:{"complex" if cplx else "real"}:{cyc}:flag={r} ne={mne} herm={herm} adj={adj} erradj={eadj} resadj={radj} strict={strict} pd={pd}')
+            if hh != 'true':
+                ctx.corr('hand-built hierarchy is not exactly Hermitian in the model', cj, o[-60:], 'hh=true')
+                continue
+            if (mne == 'true') != ne:
+                ctx.corr('normal-equation smoother installed (model vs specification)', cj, mne, str(ne).lower())
+            # theorems of Proofs/ExtC05YFlag.lean: flag True and no normal-equation smoother => adjoint pairs => M Hermitian
+            if mflag == 'true' and mne != 'true' and adj != 'true':
+                ctx.corr('model consistency: flag => adjoint pairs (levelOk_partnerY, partnerY_adjoint)', cj, o[-60:], 'adj=true')
+            if adj == 'true' and herm != 'true':
+                ctx.corr('model consistency: adjoint pairs => M Hermitian (Mop_sym)', cj, o[-60:], 'herm=true')
+            # ne_sweep_err_adj / jacobi_ne_err_selfadj / nr_sweep_res_adj: flagged normal-equation pairs have Euclidean-adjoint
+            # error (NE) or residual (NR) propagators on every level
+            if mflag == 'true' and all(unpack(x)[0] in ('jacobi_ne', 'gauss_seidel_ne') for x in as_list(P) + as_list(Q)) and eadj != 'true':
+                ctx.corr('model consistency: flagged NE pairs have Euclidean-adjoint error propagators (ne_sweep_err_adj)', cj, o[-60:], 'erradj=true')
+            if mflag == 'true' and all(unpack(x)[0] == 'gauss_seidel_nr' for x in as_list(P) + as_list(Q)) and radj != 'true':
+                ctx.corr('model consistency: flagged NR pairs have Euclidean-adjoint residual propagators (nr_sweep_res_adj)', cj, o[-60:], 'resadj=true')
+            # flag_cycle_spd: strict finest smoother (Gauss-Seidel / SOR, 0 < omega < 2) on an SPD Galerkin hierarchy whose other
+            # smoothers are non-expansive => M positive definite; required of the model when every installed smoother is Gauss-Seidel / SOR
+            if (not cplx and mflag == 'true' and strict == 'true' and pd != 'true'
+                    and all(unpack(x)[0] in ('gauss_seidel', 'sor', None) and 0 < unpack(x)[1].get('omega', 1.0) < 2 for x in as_list(P) + as_list(Q))):
+                ctx.corr('model consistency: strict Gauss-Seidel/SOR smoothing => M positive definite (flag_cycle_spd)', cj, o[-60:], 'pd=true')
+            if r == 'true':
+                judge_real(ctx, ml, P, Q, cj, cycles=cyc, M_cache={cyc: M})
+
+
+# ------------------------------------------------------------------------------------------------
 # part C: search on the real constructors
 # ------------------------------------------------------------------------------------------------
 
@@ -1197,6 +1425,7 @@ def run(ctx):
     part_table(ctx)
     part_ctor_flags(ctx)
     part_cycles(ctx, ctx.scale(36, 800), ctx.scale(20, 400))
+    part_cycles_y(ctx, ctx.scale(30, 500))
     part_search(ctx, ctx.scale(18, 300), ctx.scale(14, 40), nmax=ctx.scale(18, 26))
     ctx.feat(f'largest accepted ||M - M^H||/||M|| of a flagged-True cycle: {STATS["asym"]:.1e} (tolerance {TOL_SYM:.0e})')
     ctx.feat(f'largest accepted |model M - real M|/|M|: {STATS["model"]:.1e} (tolerance {TOL_MODEL:.0e})')
